@@ -97,18 +97,19 @@ Lemma w_check_moved_repaired :
   fires (ws (QCSN "api") s) (touched 7 (v_c w_check_moved) s) = true.
 Proof. split; [apply neq_compute; vm_compute; reflexivity|repeat split; vm_compute; reflexivity]. Qed.
 
-(* 4b. what is left of it: the bump goes to the name STORED in the check row; after a rename of the
-      service that name is stale, and moving the check away is missed by the service's current name *)
+(* 4b. the residue of that repair, repaired by 77429de: the bump went only to the name STORED in the
+      check row; after a rename of the service that name is stale, and moving the check away was missed
+      by the service's current name ("api": 7 -> 7, no wake).  Now the current name is bumped too. *)
 Definition w_move_stale : violation :=
   Violation [(2, EnsureNode "n1" 1); (3, EnsureSvc "n1" (spec "s1" "web")); (4, EnsureSvc "n1" (spec "s2" "db"));
              (5, EnsureCheck "n1" (ChkSpec "c2" 0 "s1" 0)); (7, EnsureSvc "n1" (spec "s1" "api"))]
             9 (EnsureCheck "n1" (ChkSpec "c2" 0 "s2" 0)) (QCSN "api").
-Lemma w_move_stale_violates : violates w_move_stale. Proof. violation w_move_stale. Qed.
-Lemma w_move_stale_no_wake :
+Lemma w_move_stale_repaired :
   let s := run (v_log w_move_stale) st0 in
   res (QCSN "api") (apply 9 (v_c w_move_stale) s) <> res (QCSN "api") s /\
-  fires (ws (QCSN "api") s) (touched 9 (v_c w_move_stale) s) = false.
-Proof. split; [apply neq_compute|]; vm_compute; reflexivity. Qed.
+  idx (QCSN "api") s = 7 /\ idx (QCSN "api") (apply 9 (v_c w_move_stale) s) = 9 /\
+  fires (ws (QCSN "api") s) (touched 9 (v_c w_move_stale) s) = true.
+Proof. split; [apply neq_compute; vm_compute; reflexivity|repeat split; vm_compute; reflexivity]. Qed.
 
 (* 5. CheckConnectServiceNodes: the index is the maximum over the service names that are in the
       result NOW; when the instances of one name leave, the index falls *)
@@ -121,7 +122,8 @@ Lemma w_csn_connect_decreases :
   idx (QCSNConnect "web") (apply 27 (DelNode "n1") s) < idx (QCSNConnect "web") s.
 Proof. vm_compute. reflexivity. Qed.
 
-(* the hypotheses of the partial theorems are exactly what these witnesses break *)
+(* the state of w_move_stale is not Coherent (a check row carries a stale name): the theorems no
+   longer need coherence, so they cover it; the Connect witnesses are outside okq *)
 Lemma w_move_stale_incoherent : ~ Coherent (run (v_log w_move_stale) st0).
 Proof.
   remember (run (v_log w_move_stale) st0) as s eqn:Es.
@@ -190,13 +192,13 @@ Proof.
 Qed.
 
 Lemma never_missed_partial_lemma hi s i c q :
-  Reach hi s -> Coherent s -> hi < i -> safe_cmd c s -> safe_query q ->
+  Reach hi s -> hi < i -> safe_query q ->
   res q (apply i c s) <> res q s ->
   idx q s < idx q (apply i c s) /\ fires (ws q s) (touched i c s) = true.
 Proof.
-  intros HR HC Hlt Hs Hq Hc. split.
-  - exact (never_missed_index hi s i c q HR HC Hlt Hs Hq Hc).
-  - exact (never_missed_fires hi s i c q HR HC Hlt Hs Hq Hc).
+  intros HR Hlt Hq Hc. split.
+  - exact (never_missed_index hi s i c q HR Hlt Hq Hc).
+  - exact (never_missed_fires hi s i c q HR Hlt Hq Hc).
 Qed.
 
 Lemma monotone_refuted_lemma :
@@ -223,7 +225,7 @@ Proof.
 Qed.
 
 Lemma wakes_lemma hi s i c q :
-  Reach hi s -> Coherent s -> hi < i -> 1 < i -> safe_cmd c s -> safe_query q ->
+  Reach hi s -> hi < i -> 1 < i -> safe_query q ->
   res q (apply i c s) <> res q s ->
   fires (ws q s) (touched i c s) = true /\
   reported q s < reported q (apply i c s) /\
@@ -231,29 +233,31 @@ Lemma wakes_lemma hi s i c q :
     loop (LS (reported q s) false false) ((idx q s, ENone, Fired) :: (idx q (apply i c s), ENone, w) :: rest)
     = XIndex (reported q (apply i c s)).
 Proof.
-  intros HR HC Hlt H1 Hs Hq Hc.
-  pose proof (never_missed_reported hi s i c q HR HC Hlt H1 Hs Hq Hc) as Hrep.
-  split; [exact (never_missed_fires hi s i c q HR HC Hlt Hs Hq Hc)|].
+  intros HR Hlt H1 Hq Hc.
+  pose proof (never_missed_reported hi s i c q HR Hlt H1 Hq Hc) as Hrep.
+  split; [exact (never_missed_fires hi s i c q HR Hlt Hq Hc)|].
   split; [exact Hrep|]. intros w rest. exact (blocked_query_returns q s (apply i c s) w rest Hrep).
 Qed.
 
-Lemma refuted_classes_lemma :
-  violates w_connect /\ violates w_csn_connect /\ violates w_move_stale /\
-  (let s := run (v_log w_move_stale) st0 in
-   res (QCSN "api") (apply 9 (v_c w_move_stale) s) <> res (QCSN "api") s /\
-   fires (ws (QCSN "api") s) (touched 9 (v_c w_move_stale) s) = false).
-Proof. exact (conj w_connect_violates (conj w_csn_connect_violates (conj w_move_stale_violates w_move_stale_no_wake))). Qed.
+Lemma refuted_classes_lemma : violates w_connect /\ violates w_csn_connect.
+Proof. exact (conj w_connect_violates w_csn_connect_violates). Qed.
 
 Lemma hypotheses_met_lemma :
-  Reach 8 ex_state /\ Coherent ex_state /\ 8 < 9 /\ safe_cmd ex_cmd ex_state /\ safe_query (QCSN "web") /\
+  Reach 8 ex_state /\ 8 < 9 /\ safe_query (QCSN "web") /\
   res (QCSN "web") (apply 9 ex_cmd ex_state) <> res (QCSN "web") ex_state.
 Proof.
-  split; [exact ex_reach|]. split; [exact ex_coherent|]. split; [reflexivity|].
-  split; [exact (proj1 ex_safe)|]. split; [exact (proj2 ex_safe)|exact ex_changes].
+  split; [exact ex_reach|]. split; [reflexivity|]. split; [exact (proj2 ex_safe)|exact ex_changes].
 Qed.
-Lemma hypotheses_exclude_lemma :
-  ~ Coherent (run (v_log w_move_stale) st0) /\ ~ okq (v_q w_connect) /\ ~ okq (v_q w_csn_connect).
-Proof. exact (conj w_move_stale_incoherent (conj w_connect_not_okq w_csn_connect_not_okq)). Qed.
+Lemma hypotheses_exclude_lemma : ~ okq (v_q w_connect) /\ ~ okq (v_q w_csn_connect).
+Proof. exact (conj w_connect_not_okq w_csn_connect_not_okq). Qed.
+(* the theorems apply in a state that is NOT coherent (the state of the former witness w_move_stale) *)
+Lemma covers_incoherent_lemma :
+  let s := run (v_log w_move_stale) st0 in
+  Reach 7 s /\ ~ Coherent s /\ safe_query (QCSN "api").
+Proof.
+  cbv zeta. split; [change 7 with (last_index 0 (v_log w_move_stale)); apply (Reach_log (v_log w_move_stale)); vm_compute; reflexivity|]. split; [exact w_move_stale_incoherent|].
+  eapply ok_svc; constructor.
+Qed.
 
 (* the repaired classes, as regression facts *)
 Lemma repaired_classes_lemma :
@@ -269,6 +273,12 @@ Lemma repaired_classes_lemma :
    idx (QCSN "api") s = 5 /\ idx (QCSN "api") (apply 7 (v_c w_check_moved) s) = 7 /\
    fires (ws (QCSN "api") s) (touched 7 (v_c w_check_moved) s) = true).
 Proof. exact (conj w_rename_repaired (conj w_rename_back_repaired w_check_moved_repaired)). Qed.
+Lemma move_stale_repaired_lemma :
+  let s := run (v_log w_move_stale) st0 in
+  res (QCSN "api") (apply 9 (v_c w_move_stale) s) <> res (QCSN "api") s /\
+  idx (QCSN "api") s = 7 /\ idx (QCSN "api") (apply 9 (v_c w_move_stale) s) = 9 /\
+  fires (ws (QCSN "api") s) (touched 9 (v_c w_move_stale) s) = true.
+Proof. exact w_move_stale_repaired. Qed.
 
 (* ---------- audit round: the exported strength ---------- *)
 Lemma never_missed_plain_lemma hi s i c q :
@@ -282,11 +292,11 @@ Qed.
 
 (* the new index is above the index ANY state reached no later than s reported (high-water mark) *)
 Lemma above_every_earlier_lemma hi0 s0 hi s i c q :
-  Reach hi0 s0 -> hi0 <= hi -> Reach hi s -> Coherent s -> hi < i -> safe_cmd c s -> safe_query q ->
+  Reach hi0 s0 -> hi0 <= hi -> Reach hi s -> hi < i -> safe_query q ->
   res q (apply i c s) <> res q s -> idx q s0 < idx q (apply i c s).
 Proof.
-  intros HR0 Hle HR HC Hlt Hs Hq Hc.
-  pose proof (highwater_okq hi s i c q HR HC Hlt Hs Hq Hc). pose proof (idx_bounded hi0 s0 q HR0 Hq). lia.
+  intros HR0 Hle HR Hlt Hq Hc.
+  pose proof (highwater_okq hi s i c q HR Hlt Hq Hc). pose proof (idx_bounded hi0 s0 q HR0 Hq). lia.
 Qed.
 Lemma above_every_earlier_plain_lemma hi0 s0 hi s i c q :
   Reach hi0 s0 -> hi0 <= hi -> Reach hi s -> hi < i -> plainq q ->
@@ -299,15 +309,15 @@ Qed.
 (* the wake of the blocked round is the model's [fires], not a scripted constant *)
 Definition wake_of (b : bool) : wake := if b then Fired else Timeout.
 Lemma wakes_derived_lemma hi s i c q :
-  Reach hi s -> Coherent s -> hi < i -> 1 < i -> safe_cmd c s -> safe_query q ->
+  Reach hi s -> hi < i -> 1 < i -> safe_query q ->
   res q (apply i c s) <> res q s ->
   forall w rest,
     loop (LS (reported q s) false false)
          ((idx q s, ENone, wake_of (fires (ws q s) (touched i c s))) :: (idx q (apply i c s), ENone, w) :: rest)
     = XIndex (reported q (apply i c s)).
 Proof.
-  intros HR HC Hlt H1 Hs Hq Hc w rest.
-  destruct (wakes_lemma hi s i c q HR HC Hlt H1 Hs Hq Hc) as (Hf & _ & Hl). rewrite Hf. apply Hl.
+  intros HR Hlt H1 Hq Hc w rest.
+  destruct (wakes_lemma hi s i c q HR Hlt H1 Hq Hc) as (Hf & _ & Hl). rewrite Hf. apply Hl.
 Qed.
 (* and a watch that does not fire leaves the query blocked until its timeout, with the stale index:
    the shape of every "missed wake" the oracle reports *)
